@@ -58,6 +58,23 @@ def run(tier):
                               pipeline.replay_blob(r))
         if r["status"] == "harness-error":
             chk.count("harness-error")
+    # ---- the executable merges equal paths with a hash map; the theorems speak about the un-merged run: compare both
+    um_cases = [r for r in recs if r["status"] == "agree"][:25]
+    from ..oracle import moments_request
+    from ..common import model_batch_parallel as _mbp
+    um = _mbp([dict(moments_request(r["case"], 3), merge=False, budget=20000) for r in um_cases], timeout=40) if um_cases else []
+    n_um = 0
+    for r, a in zip(um_cases, um):
+        if not a.get("ok"):
+            chk.count("unmerged:refused")
+            continue
+        k = min(len(a["values"][0]), len(r["oracle"]["values"][0])) if a["values"] else 0
+        same = all(x[:k] == y[:k] for x, y in zip(a["values"], r["oracle"]["values"]))
+        if not same:
+            chk.obligation("model:merged-run-equals-unmerged-run", False, {"text": r["case"]["text_used"]})
+        else:
+            n_um += 1
+    chk.obligation("model:merged-run-equals-unmerged-run(sampled)", lean_ok and (n_um > 0 or not um_cases), {"cases": n_um})
     # ---- the CLI lines: 'E(M) = v0; v1; ...; formula' and 'E(M | n=k) = value' (prettify_piecewise, eval_re)
     cli_cases = [r for i, r in enumerate(recs) if r["status"] in ("agree", "mismatch") and i % 2 == 0]
     from ..pool import run_tasks
